@@ -35,7 +35,7 @@ var apiPairs = map[string]string{
 	"constrow": "row", "constcol": "col", "constdiag": "diag",
 	"constiterator": "iterator", "magiciterator": "iterator",
 	"getconst": "get", "getmagic": "get",
-	"clonevector": "clone", "clonematrix": "clone", "clonescalar": "clone", "clonemagicscalar": "clone", "cloneconstscalar": "clone",
+	"clonevector": "clone", "clonematrix": "clone", "cloneconstmatrix": "clone", "cloneconstvector": "clone", "clonemagicmatrix": "clone", "clonemagicvector": "clone", "clonescalar": "clone", "clonemagicscalar": "clone", "cloneconstscalar": "clone",
 	"joint_iterator_": "joint_iterator", "joint3_iterator_": "joint3_iterator",
 	"realmonadic": "monadic", "realmonadiclazy": "monadiclazy", "realdyadic": "dyadic", "realdyadiclazy": "dyadiclazy",
 }
